@@ -163,3 +163,36 @@ Proof.
   - destruct guarded; [|reflexivity]. cbn [andb]. destruct (0 <=? a) eqn:E1; destruct (a <? segDurMS * 1000) eqn:E2; try reflexivity; lia.
   - destruct guarded; [|reflexivity]. cbn [andb]. destruct (0 <=? a) eqn:E1; destruct (a <? segDurMS * 1000) eqn:E2; try reflexivity; lia.
 Qed.
+
+(** With the rounded guard (f0e7b4c) every accepted chunked request leaves at least one
+    millisecond of chunk duration: [SegmentDurMS - atoMS >= 1], hence at least [timescale/1000] ticks. *)
+Lemma guard_rounded_chunkdur a segDurMS ts :
+  chunkGuardRounded (Some a) segDurMS = true -> 0 < ts ->
+  0 <= roundMilli a /\ 1 <= segDurMS - roundMilli a /\
+  ts / 1000 <= chunkDurOf segDurMS (roundMilli a) ts /\
+  (1000 <= ts -> 0 < chunkDurOf segDurMS (roundMilli a) ts).
+Proof.
+  unfold chunkGuardRounded. intros G Hts. apply andb_prop in G. destruct G as [G1 G2].
+  assert (R0 : 0 <= roundMilli a).
+  { unfold roundMilli. destruct (0 <=? a) eqn:E; [apply Z.div_pos; lia|lia]. }
+  split; [exact R0|]. split; [lia|]. unfold chunkDurOf.
+  assert (0 <= (segDurMS - roundMilli a) * ts) by nia. rewrite Z.quot_div_nonneg by lia.
+  assert (M : ts / 1000 <= (segDurMS - roundMilli a) * ts / 1000) by (apply Z.div_le_mono; nia).
+  split; [exact M|]. intros H1. assert (1 <= ts / 1000) by (apply Z.div_le_lower_bound; lia). lia.
+Qed.
+
+Lemma guard_rounded_refuses segDurMS :
+  chunkGuardRounded None segDurMS = false /\
+  (forall a, a < 0 -> chunkGuardRounded (Some a) segDurMS = false) /\
+  (forall a, segDurMS * 1000 <= a -> chunkGuardRounded (Some a) segDurMS = false) /\
+  (forall a, 0 <= a -> a + 500 < segDurMS * 1000 -> chunkGuardRounded (Some a) segDurMS = true).
+Proof.
+  unfold chunkGuardRounded, roundMilli. split; [reflexivity|]. split; [|split]; intros a H.
+  - destruct (0 <=? a) eqn:E; [lia|reflexivity].
+  - destruct (0 <=? a) eqn:E; [|reflexivity]. cbn [andb].
+    assert (segDurMS <= (a + 500) / 1000) by (apply Z.div_le_lower_bound; lia).
+    destruct ((a + 500) / 1000 <? segDurMS) eqn:E2; [lia|reflexivity].
+  - intros H2. destruct (0 <=? a) eqn:E; [|lia]. cbn [andb].
+    assert ((a + 500) / 1000 < segDurMS) by (apply Z.div_lt_upper_bound; lia).
+    destruct ((a + 500) / 1000 <? segDurMS) eqn:E2; [reflexivity|lia].
+Qed.
